@@ -1,8 +1,9 @@
 /-
-  C09 — alternative routes agree; zone files round-trip.  Property theorems only.
-  (The zone-file round trip is proved in Proofs/Zone.lean and re-exported here once it exists.)
+  C09 — alternative routes agree; zone files round-trip.  Property theorems only
+  (the string-level proof of the zone round trip is in Proofs/Zone.lean).
 -/
 import PdbVerif.Gen.Str
+import PdbVerif.Proofs.Zone
 
 namespace Props.C09
 open Py
@@ -13,5 +14,32 @@ theorem zone_line_format (chain : Str) (num : Int) :
     Gen.zone_line chain num =
       .ok ("zone ".toList ++ chain ++ intStr num ++ ['-'] ++ chain ++ intStr num ++ ['\n']) := by
   simp [Gen.zone_line, pure, Except.pure]
+
+/-- **Zone lines round-trip.**  For every one-character chain identifier other than `-` and whitespace and every
+    residue number — zero and negative ones included — the line the library writes is read back, by the reader every
+    routine uses (`read_zone`; `get_izone_rowID` calls it), as exactly the residue that was written. -/
+theorem read_write_zone (c : Char) (n : Int) (hdash : c ≠ '-') (hsp : Py.isSpace c = false) :
+    (Gen.zone_line [c] n >>= Gen.read_zone_line) = .ok ([c], n) :=
+  Proofs.Zone.read_write_zone c n hdash hsp
+
+/-- A whole zone: every residue of a written zone file is read back, in order. -/
+theorem read_write_zone_file (zs : List (Char × Int))
+    (h : ∀ z ∈ zs, z.1 ≠ '-' ∧ Py.isSpace z.1 = false) :
+    zs.mapM (fun z => Gen.zone_line [z.1] z.2 >>= Gen.read_zone_line) = .ok (zs.map fun z => ([z.1], z.2)) := by
+  induction zs with
+  | nil => rfl
+  | cons z zs ih =>
+    have hz := h z (List.mem_cons_self ..)
+    have ih' := ih (fun w hw => h w (List.mem_cons_of_mem _ hw))
+    rw [List.mapM_cons, read_write_zone z.1 z.2 hz.1 hz.2, ih']
+    rfl
+
+example : (Gen.zone_line ['A'] (-3) >>= Gen.read_zone_line) = .ok (['A'], -3) :=
+  read_write_zone 'A' (-3) (by decide) (by decide)
+
+/-- The chain identifier `-` is NOT read back (the line format uses `-` as separator): recorded finding C09-F4. -/
+theorem read_write_zone_dash_counterexample :
+    (Gen.zone_line ['-'] 5 >>= Gen.read_zone_line) ≠ .ok (['-'], 5) :=
+  Proofs.Zone.read_write_zone_dash_counterexample
 
 end Props.C09
